@@ -76,6 +76,10 @@ def replay_verbs(inputs, obl):
             if tok in (None, ':#') and a > 0 and n > 0:
                 grid.append((f"{lit(a)}:#{lit(b)}", [b[j:j + a] for j in range(0, n, a)]))
     if tok in (None, ':#'):
+        for rows in (2, 3, 4, 6):
+            m = [[10 * r + c for c in range(2)] for r in range(rows)]
+            for sz in range(1, rows + 1):
+                grid.append((f"{sz}:#{lit(m)}", [m[j:j + sz] for j in range(0, rows, sz)]))
         for sizes in ([2, 3], [1, 2, 3], [3, 1], [2, 2], [1, 1, 4]):
             for n in range(1, 12):
                 b = list(range(n))
@@ -121,3 +125,61 @@ def replay_verbs(inputs, obl):
     if problems:
         return dict(confirmed=True, detail='; '.join(problems[:4]))
     return dict(confirmed=False, detail=f"scripted verb applications and {len(grid)} grid cases agree with the reference")
+
+
+def match_bounded():
+    """Match (~) against the structural definition on every pair of values from a closed universe: atoms (ints, reals, a character, a
+    symbol, strings) and lists of length <= 3 of atoms and of lists of length <= 2 (nesting depth 2).  -> (n_pairs, first problems)"""
+    import itertools
+    import warnings
+    warnings.simplefilter('ignore')
+    from klongpy import KlongInterpreter
+    k = KlongInterpreter()
+    atoms = ['1', '2', '0', '1.5', '0ca', ':s', '"a"', '"ab"', '""']
+    small = ['[]'] + ['[' + ' '.join(c) + ']' for n in (1, 2) for c in itertools.product(['1', '2', '"a"'], repeat=n)]
+    lists = list(small)
+    for n in (1, 2, 3):
+        for c in itertools.product(['1', '2', '[1]', '[1 2]', '[]', '"a"'], repeat=n):
+            lists.append('[' + ' '.join(c) + ']')
+    universe = list(dict.fromkeys(atoms + lists))
+
+    def parse(t):
+        v = k(t)
+        return v
+
+    def struct(v):
+        import numpy as np
+        if isinstance(v, np.ndarray):
+            return ('list', tuple(struct(x) for x in v.tolist())) if v.dtype == object else ('list', tuple(struct(x) for x in v.tolist()))
+        if isinstance(v, list):
+            return ('list', tuple(struct(x) for x in v))
+        if isinstance(v, str):
+            return (type(v).__name__, str(v))
+        if isinstance(v, (int, float)) or hasattr(v, 'item'):
+            return ('num', float(v))
+        return ('other', repr(v))
+
+    def spec(a, b):
+        if a[0] == 'list' or b[0] == 'list':
+            return a[0] == b[0] == 'list' and len(a[1]) == len(b[1]) and all(spec(x, y) for x, y in zip(a[1], b[1]))
+        if a[0] == 'num' and b[0] == 'num':
+            return abs(a[1] - b[1]) <= 1e-9
+        if a[0] == 'num' or b[0] == 'num':
+            return False
+        return a[1] == b[1] if (a[0] == b[0] or {a[0], b[0]} <= {'str', 'KGChar'}) else False
+    vals = {t: struct(parse(t)) for t in universe}
+    problems, n = [], 0
+    for x, y in itertools.product(universe, repeat=2):
+        n += 1
+        try:
+            got = int(k(f"{x}~{y}"))
+        except Exception as e:
+            got = f"raised {type(e).__name__}"
+        want = 1 if spec(vals[x], vals[y]) else 0
+        if got != want:
+            # strings vs characters / symbols: the reference compares them with Equal; only count clear structural disagreements
+            if vals[x][0] == 'list' or vals[y][0] == 'list' or (vals[x][0] == 'num' and vals[y][0] == 'num'):
+                problems.append(f"{x}~{y} -> {got}, the structural definition gives {want}")
+                if len(problems) >= 3:
+                    break
+    return n, problems
